@@ -492,8 +492,7 @@ std::string op_tuparr_self(std::string const &_op, line_t const &L)
                     FWD(x),
                     [&idx, k](auto &&e)
                     {
-                      static_assert(std::is_lvalue_reference_v<decltype(e)>);
-                      e.read();
+                      ask(FWD(e));
                       return idx++ == k ? fcppt::loop::break_ : fcppt::loop::continue_;
                     });
                 return 0;
